@@ -15,15 +15,15 @@ import (
 
 func init() { schedx.Install() } // (after the init of c05_test.go, which sets the yield hook)
 
-var singleKeyFirst = []int{0, 0, 0, 0, 0, 20, 4} // the suspended command: a single-key command (or one about deadlines)
+var singleKeyFirst = []int{4, 2, 2, 2, 0, 16, 4} // the suspended command: mostly a single-key command; a multi-key writer suspended inside its lock section is what exposes a single-key reader that does not lock
 
 func TestSingleKeySchedules(t *testing.T) {
-	kit.Check(t, kit.Spec[schedx.Case]{Sub: "sched", Quick: 4000, Thorough: 40000,
+	kit.Check(t, kit.Spec[schedx.Case]{Sub: "sched", Quick: 6000, Thorough: 40000,
 		Gen: schedx.Gen(schedx.Profile{Fast: true, AWeights: singleKeyFirst}), Exec: schedx.Exec, TrackCase: true})
 }
 
 // with pops that wait (one key) and keys past their deadline but still stored
 func TestSingleKeySchedulesSlow(t *testing.T) {
 	kit.Check(t, kit.Spec[schedx.Case]{Sub: "sched", Quick: 100, Thorough: 1500,
-		Gen: schedx.Gen(schedx.Profile{AWeights: []int{0, 0, 0, 0, 3, 16, 4}}), Exec: schedx.Exec, TrackCase: true})
+		Gen: schedx.Gen(schedx.Profile{AWeights: []int{3, 1, 1, 1, 5, 14, 4}}), Exec: schedx.Exec, TrackCase: true})
 }
